@@ -14,8 +14,15 @@
 static uint32_t crc32_table[256];
 static bool crc32_initialized = false;
 
+#ifdef NANOLANG_VERIF
+#include <unistd.h>
+static void verif_yield_crc(void) { const char *y = getenv("NLVERIF_YIELD_US"); if (y) usleep((useconds_t)atoi(y)); }
+#endif
 static void crc32_init(void) {
     if (crc32_initialized) return;
+#ifdef NANOLANG_VERIF
+    verif_yield_crc();
+#endif
     for (uint32_t i = 0; i < 256; i++) {
         uint32_t crc = i;
         for (int j = 0; j < 8; j++) {
